@@ -23,7 +23,7 @@ GEN = os.path.join(COQ, "theories", "gen")
 BUILD = os.path.join(COQ, "build")
 EVID = os.path.join(VERIF, "evidence")
 REPLAYS = os.path.join(VERIF, "replays")
-KNOWN = os.path.join(VERIF, "known_findings.json")
+KNOWN_DIR = os.path.join(VERIF, "known_findings")
 GUARD = "BASYX_PYTHON_SDK_VERIF"
 
 ALLOWED_AXIOMS = {
@@ -371,10 +371,10 @@ class Check:
     def finish(self, level="proof", checker_cmd=None, rule="", explanation=None):
         known = []
         try:
-            known = json.load(open(KNOWN))["findings"]
+            known = json.load(open(os.path.join(KNOWN_DIR, f"{self.pid}.json")))["findings"]
         except FileNotFoundError:
             pass
-        open_sigs = {k["signature"]: k for k in known if k["property"] == self.pid and k["status"] == "open"}
+        open_sigs = {k["signature"]: k for k in known if k["status"] == "open"}
         os.makedirs(REPLAYS, exist_ok=True)
         os.makedirs(EVID, exist_ok=True)
         lines = []
